@@ -77,6 +77,10 @@ PredDescs ==
 StmtDescs ==
   [fields : SUBSET StmtFields, declared : {"link02"}, contained : {"link02"}]
   \cup [fields : {V01Req}, declared : {"link02", "slsa01", "slsa02", "unknown"}, contained : {"link02", "slsa01", "slsa02"}]
+  \* declared type strings that are NEARLY a known one: "<v>+" the known string with something appended,
+  \* "<v>-" with its last character missing, "<v>^" in another letter case (they name no known format)
+  \cup [fields : {V01Req}, declared : {v \o m : v \in {"link02", "slsa01", "slsa02"}, m \in {"+", "-", "^"}},
+        contained : {"link02", "slsa01", "slsa02"}]
 
 MCInit ==
   /\ \/ kind = "rule" /\ toks \in RuleInputs /\ desc = [x |-> 0]
